@@ -159,7 +159,7 @@ fn strat(id: CodecId, builds: u8) -> BoxedStrategy<Case> {
 pub fn run(ctx: &mut Ctx) {
     let builds = ctx.pick(6, 40);
     for id in [CodecId::Dna, CodecId::Iupac] {
-        let cases = ctx.cases(1500, 10);
+        let cases = ctx.cases(3000, 8);
         ctx.forall(&format!("tables/{}", id.name()), cases, strat(id, builds), dispatch);
     }
     // the in-tree example table and the standard code as a custom table (all 64 codons -> 21 aminos)
